@@ -39,6 +39,7 @@ type PillarSpec struct {
 	Amount *big.Int
 	Znn    int64 // own balance (units of Zexp)
 	Qsr    int64
+	Reward *types.Address // reward-withdraw address if it differs from the owner
 }
 type UserSpec struct {
 	Znn, Qsr int64         // units of Zexp
@@ -136,8 +137,12 @@ func (s *Spec) Config() *genesis.GenesisConfig {
 	z := func(v int64) *big.Int { return new(big.Int).Mul(big.NewInt(v), big.NewInt(Zexp)) }
 	for _, p := range s.Pillars {
 		addr := PillarKey(p.Key).Address
+		reward := addr
+		if p.Reward != nil {
+			reward = *p.Reward
+		}
 		cfg.PillarConfig.Pillars = append(cfg.PillarConfig.Pillars, &definition.PillarInfo{
-			Name: p.Name, BlockProducingAddress: addr, StakeAddress: addr, RewardWithdrawAddress: addr,
+			Name: p.Name, BlockProducingAddress: addr, StakeAddress: addr, RewardWithdrawAddress: reward,
 			Amount: new(big.Int).Set(p.Amount), RegistrationTime: s.Timestamp, GiveBlockRewardPercentage: 0,
 			GiveDelegateRewardPercentage: 100, PillarType: definition.LegacyPillarType})
 		add(types.PillarContract, types.ZnnTokenStandard, p.Amount)
